@@ -213,6 +213,20 @@ class LiaSolver:
             tx, ty = self._tz(a[0]), self._tz(a[1])
             if xh < (1 << ty) or yh < (1 << tx):
                 return (x + y, xl + yl, xh + yh, xs + ys)
+            # or-ing a single constant bit that the other operand provably does not reach
+            for (p, pl, ph, cst) in ((x, xl, xh, a[1]), (y, yl, yh, a[0])):
+                if cst.__class__ is not Term and cst and (cst & (cst - 1)) == 0 and ph < cst and op == 'or':
+                    return (p + cst, pl + cst, ph + cst, xs + ys)
+            # general single-bit constant: extract that bit with two divisions
+            for (pa, cst) in ((A[0], a[1]), (A[1], a[0])):
+                if cst.__class__ is not Term and cst and (cst & (cst - 1)) == 0:
+                    (p, pl, ph, ps) = pa
+                    k = cst.bit_length() - 1
+                    (q, ql, qh), _, side = self._divpow2(p, pl, ph, k, ps)
+                    _, (bit, _, _), side = self._divpow2(q, ql, qh, 1, side)
+                    if op == 'or':
+                        return (p + (1 - bit) * cst, pl, ph + cst, side)
+                    return (p + (1 - 2 * bit) * cst, max(pl - cst, 0), ph + cst, side)
             if op == 'xor' and xh <= 1 and yh <= 1:
                 return (z3.If(x == y, 0, 1), 0, 1, xs + ys)
             if op == 'or' and xh <= 1 and yh <= 1:
